@@ -190,7 +190,7 @@ impl Harness for C01 {
         }
         if t {
             lattice_jobs(&mut jobs, pert, 4, 4, "sym", S3, D6, &scales, &both, 2, "pw", false);
-            lattice_jobs(&mut jobs, pert, 4, 4, "sym", S5, D6, &scales[..1], &[64], 4, "two", false);
+            lattice_jobs(&mut jobs, pert, 4, 4, "sym", S5, D6, &scales[..1], &both, 4, "two", false);
             lattice_jobs(&mut jobs, pert, 5, 5, "sym", S3, D3, &scales[..1], &[64], 5, "two", false);
         } else {
             lattice_jobs(&mut jobs, pert, 4, 4, "sym", S3, D3, &scales[..1], &both, 2, "two", false);
@@ -209,7 +209,7 @@ impl Harness for C01 {
                 lattice_jobs(&mut jobs, pert, m, n, "full", S3, &[], &scales, &both, 3, "two", true);
             }
             lattice_jobs(&mut jobs, pert, 4, 4, "hess", S3, &[], &scales[1..], &both, 3, "two", true);
-            lattice_jobs(&mut jobs, pert, 4, 4, "full", S3, &[], &scales[..1], &[64], 6, "two", true);
+            lattice_jobs(&mut jobs, pert, 4, 4, "full", S3, &[], &scales[..1], &both, 6, "two", true);
         } else {
             for &(m, n) in &[(4usize, 3usize), (3, 4)] {
                 lattice_jobs(&mut jobs, pert, m, n, "full", S2, &[], &scales, &both, 0, "two", true);
@@ -254,8 +254,8 @@ impl Harness for C01 {
                 "alphabet_perturbation_of_seed": pert.describe(),
                 "scales_log2": scales,
                 "float_widths": ["f64", "f32"],
-                "lattice_general": format!("every m x n matrix, 1<=m,n<=3, over {:?}; 4x1,1x4 over the same; 4x2,2x4 over {:?}; 4x4 over {{0,1}} and {{1,-1}} (scale 1){}", alpha, if t { S5 } else { S3 }, if t { "; 4x3, 3x4 over {0,1,-1}; 4x4 over {0,1,-1} (scale 1, f64); 4x4 upper Hessenberg over {0,1,-1} at the other scales" } else { "; 4x3, 3x4 over {0,1}" }),
-                "lattice_symmetric": format!("every symmetric n x n, n<=3, off-diagonal over {:?}, diagonal over {:?}; {}", S5, D6, if t { "4x4 off-diagonal {0,1,-1} x diagonal {0,1,-1,2,3,4} at all scales; 4x4 off-diagonal {0,1,-1,2,-2} x the same diagonal (scale 1, f64); 5x5 off-diagonal {0,1,-1} diagonal {1,2,0} (scale 1, f64)" } else { "4x4 off-diagonal {0,1,-1} diagonal {1,2,0} (scale 1)" }),
+                "lattice_general": format!("every m x n matrix, 1<=m,n<=3, over {:?}; 4x1,1x4 over the same; 4x2,2x4 over {:?}; 4x4 over {{0,1}} and {{1,-1}} (scale 1){}", alpha, if t { S5 } else { S3 }, if t { "; 4x3, 3x4 over {0,1,-1}; 4x4 over {0,1,-1} (scale 1); 4x4 upper Hessenberg over {0,1,-1} at the other scales" } else { "; 4x3, 3x4 over {0,1}" }),
+                "lattice_symmetric": format!("every symmetric n x n, n<=3, off-diagonal over {:?}, diagonal over {:?}; {}", S5, D6, if t { "4x4 off-diagonal {0,1,-1} x diagonal {0,1,-1,2,3,4} at all scales; 4x4 off-diagonal {0,1,-1,2,-2} x the same diagonal (scale 1); 5x5 off-diagonal {0,1,-1} diagonal {1,2,0} (scale 1, f64)" } else { "4x4 off-diagonal {0,1,-1} diagonal {1,2,0} (scale 1)" }),
                 "gram": "for every full-column-rank lattice matrix G also the SPD matrix G^T G (Cholesky clauses only)",
                 "families": format!("{} structured families, n = 1..{}, every variant, aspects sq/t1/t5/t2n/w1/w5, every scale, both widths", gen::FAMILIES.len(), nmax),
                 "right_hand_sides": "B = A*X0, X0 over {0,1,-1} patterns with 1..4 columns (full catalogue: 3 patterns per width; 'pw': one per width; 'two': p=1 and p=3), each also with a component outside range(A) for tall / rank-deficient A",
